@@ -107,6 +107,9 @@ META["rule"] += (
 META["rule"] += (
     " " + 'Added after the seventh round: the caller rescales every array it was handed before asking again (40 % of the histories); the array given to update_resistances is refilled right after the call (30 %).')
 
+META["rule"] += (
+    " " + 'Added after the eighth round: a resistor from a node to itself changes no effective resistance and no current flow.')
+
 RT = 1e-9
 
 
@@ -656,6 +659,49 @@ def check_hub(ctx, RN, k, cid):
         ctx.violation("admittive_degree:differs:hub-network", case, cid)
 
 
+def check_self_loop(ctx, RN, r, cid):
+    """A resistor from a node to itself carries no current: resistances
+    between nodes and current flows are those of the circuit without it."""
+    r = np.asarray(r, dtype=float)
+    n = len(r)
+    g = ctx.rng("selfloop", cid)
+    x = r.copy()
+    for i in g.choice(n, int(g.integers(1, 3)), replace=False):
+        x[i, i] = float(g.choice([0.5, 1.0, 3.0, 8.0]))
+    ok0, a = ctx.call(RN, r.copy(), silence_level=3)
+    ok1, b = ctx.call(RN, x, silence_level=3)
+    if not (ok0 and ok1):
+        ctx.count("self_loop_rejected")
+        return
+    ctx.count("self_loop_cases")
+    for name, f in (
+            ("effective_resistance", lambda o: er_matrix(o, n)),
+            ("average_effective_resistance",
+             lambda o: o.average_effective_resistance()),
+            ("diameter_effective_resistance",
+             lambda o: o.diameter_effective_resistance()),
+            ("vertex_current_flow_betweenness",
+             lambda o: np.array([o.vertex_current_flow_betweenness(i)
+                                 for i in range(n)])),
+            ("edge_current_flow_betweenness",
+             lambda o: o.edge_current_flow_betweenness()
+             * (1 - np.eye(n)))):
+        oka, va = ctx.call(f, a)
+        okb, vb = ctx.call(f, b)
+        ctx.evals(2)
+        if not (oka and okb):
+            if oka != okb:
+                ctx.violation(f"{name}:self-loop-resistor:raises",
+                              {"resistances": x,
+                               "exc": repr(vb if oka else va)}, cid)
+            continue
+        ctx.nontrivial(("selfloop", name, cid))
+        if not close(np.asarray(va, float), np.asarray(vb, float), 1e-7,
+                     1e-9 * max(1.0, float(np.abs(va).max()))):
+            ctx.violation(f"{name}:changed-by-a-self-loop-resistor",
+                          {"resistances": x, "without": va, "with": vb}, cid)
+
+
 def check_single_precision(ctx, RN, r, cid):
     """The same circuit with its resistances held in single precision (the
     values are exactly representable): 1/r is then evaluated in single
@@ -1019,6 +1065,8 @@ def run(ctx):
             ctx.count("structured_cases")
             if idx % 3 == 1 and len(r) <= 12:
                 check_single_precision(ctx, RN, np.asarray(r), cid)
+            if idx % 3 == 2 and len(r) <= 12 and not np.iscomplexobj(r):
+                check_self_loop(ctx, RN, np.asarray(r), cid)
 
     for j, k_ in enumerate((66, 70, 130) + ((140, 260) if ctx.thorough
                                             else ())):
